@@ -11,7 +11,8 @@ cls("FailureSentinel", base="StopSentinel", _value=True)
 cls("Queue", nput="int", nput_stop="int", nget="int", nget_stop="int")
 cls("LazyPool", _threads="int", _to_process="optref:Queue", _results="optref:Queue",
     _active_threads="int")
-cls("Collector", _to_process="ref:Queue", _results="ref:Queue", func="func", started="bool")
+cls("Thread", started="bool")
+cls("Collector", base="Thread", _to_process="ref:Queue", _results="ref:Queue", func="func")
 
 ufunc("ISA_StopSentinel", ["U"], "bool")
 ufunc("ISA_FailureSentinel", ["U"], "bool")
@@ -39,16 +40,17 @@ contract("queue", "Queue.empty", cls="Queue", sig=["self"], returns="bool",
 contract("queue", "Queue.qsize", cls="Queue", sig=["self"], returns="int",
     assumed=True, verify=False, props=["C13", "C14"], modifies=[], ensures=["result >= 0"],
     note="snapshot answer decided by the environment (other threads)")
-contract(ML, "Collector.__init__", cls="Collector", sig=["self", "func", "to_process", "results"],
+contract("threading", "Thread.__init__", cls="Thread", sig=["self"], assumed=True, verify=False, props=["C13"],
+    modifies=["Thread.started@self"], ensures=["not self.started"],
+    note="threading.Thread.__init__: the thread object exists and is not started (A-STD)")
+contract(ML, "Collector.__init__", props=["C13"],
     params={"func": "func", "to_process": "ref:Queue", "results": "ref:Queue"},
-    assumed=True, verify=False, props=["C13"],
-    modifies=["Collector._to_process@self", "Collector._results@self", "Collector.func@self", "Collector.started@self"],
-    ensures=["self._to_process is to_process and self._results is results and not self.started"],
-    note="Collector.__init__ stores its arguments and calls threading.Thread.__init__ (super() call with *args/**kwargs is outside the subset)")
-contract("threading", "Collector.start", cls="Collector", sig=["self"],
+    modifies=["Collector._to_process@self", "Collector._results@self", "Collector.func@self", "Thread.started@self"],
+    ensures=["self._to_process is to_process and self._results is results and not self.started", "self.func == func"])
+contract("threading", "Thread.start", cls="Thread", sig=["self"],
     assumed=True, verify=False, props=["C13"],
     requires=["not self.started"],
-    modifies=["Collector.started@self"], ensures=["self.started"])
+    modifies=["Thread.started@self"], ensures=["self.started"])
 
 # --- LazyPool ---------------------------------------------------------------------
 _LPF = {'LazyPool._threads': [], 'LazyPool._to_process': [], 'LazyPool._results': [], 'LazyPool._active_threads': ['self']}
@@ -101,7 +103,7 @@ contract(ML, "LazyPool.imap_unordered", props=["C13", "C07", "C14", "C02"],
               "forall(lambda j: not ISA_StopSentinel(src(iterable, j)))"],
     modifies=["LazyPool._to_process@self", "LazyPool._results@self", "LazyPool._active_threads@self",
               "Queue.nput", "Queue.nput_stop", "Queue.nget", "Queue.nget_stop",
-              "Collector._to_process", "Collector._results", "Collector.func", "Collector.started"],
+              "Collector._to_process", "Collector._results", "Collector.func", "Thread.started"],
     ensures=[
         ("C13", "lp_idle(self)"),
         ("C02", "len(out) == g_res.nget - g_res.nget_stop"),                  # one yield per result
